@@ -101,6 +101,8 @@ def check(prop):
       owed_total += x.get("owed", 0)
       for c in x.get("bad", []):
         p = CLAUSE_PROP.get(c, "C07")
+        if c == "Missing" and prop == "C09" and any(len(m) >= 3 and m[2] == "lifo" for m in (x.get("missing") or [])):
+          p = "C09"      # a publication owed through a 'lifo' subscription never reached the front of the queue (it was not delivered that way at all)
         if p == prop:
           run.violation(c, "execution %d rejected at event %d: %s %s; config=%s" % (tid, x["at"], c, x.get("missing", ""), json.dumps(
             [[a["name"], a["spied"], a["instrumented"]] for a in r["cfg"]["aos"]])),
